@@ -37,6 +37,10 @@ InOf(e) ==
             IF Len(e.items) = 1 /\ PointOf(e.items[1].ty, e.items[1].ix) # 0 /\ e.items[1].mode = "force"
               THEN [k |-> "upd", p |-> PointOf(e.items[1].ty, e.items[1].ix)]
               ELSE [k |-> "?"]
+      [] e.k = "app" ->
+            LET set == {b \in {"time", "local", "trouble", "cfg"} : e.app[b] # -1}
+            IN IF Cardinality(set) # 1 THEN [k |-> "?"]
+               ELSE LET b == CHOOSE x \in set : TRUE IN [k |-> "app", bit |-> b, on |-> e.app[b] = 1]
       [] e.k = "rx" ->
             IF e.dst \notin {"U", "BC_OPT", "BC_MAN", "BC_NR"} \/ ~e.fir \/ ~e.fin \/ e.con THEN [k |-> "?"]
             ELSE LET rep == e.bid = lastReq.bid /\ e.seq = lastReq.seq
